@@ -494,7 +494,6 @@ func exploreFunc(key string, newProp func() interface{}, depth int) *c18out {
 	return out
 }
 
-
 // ---- every kind, short sequences (including the generic ...Type entry points) ----
 
 // exploreSeqAllKinds: from a one-element container holding each kind k1 (stored through its own
@@ -770,6 +769,7 @@ func C18(tier string) int {
 		fn    bool
 		mixed bool
 		all   bool // every kind, short sequences
+		extra bool // c18b.go: element / SetLanguage setters, decoded start states
 	}
 	stride := 3
 	if res.Thorough() {
@@ -783,14 +783,16 @@ func C18(tier string) int {
 			continue
 		}
 		if o.Props[pk].Functional {
-			jobs = append(jobs, job{pk, b.New, true, false, false}, job{pk, b.New, true, false, true})
+			jobs = append(jobs, job{pk, b.New, true, false, false, false}, job{pk, b.New, true, false, true, false}, job{pk, b.New, true, false, false, true})
 		} else {
-			jobs = append(jobs, job{pk, b.New, false, false, false}, job{pk, b.New, false, true, false}, job{pk, b.New, false, true, true})
+			jobs = append(jobs, job{pk, b.New, false, false, false, false}, job{pk, b.New, false, true, false, false}, job{pk, b.New, false, true, true, false}, job{pk, b.New, false, false, false, true})
 		}
 	}
-	jobs = append(jobs, job{"JSONLD/type", func() interface{} { return streams.NewJSONLDTypeProperty() }, false, false, false},
-		job{"JSONLD/type", func() interface{} { return streams.NewJSONLDTypeProperty() }, false, true, false},
-		job{"JSONLD/id", func() interface{} { return streams.NewJSONLDIdProperty() }, true, false, false})
+	jobs = append(jobs, job{"JSONLD/type", func() interface{} { return streams.NewJSONLDTypeProperty() }, false, false, false, false},
+		job{"JSONLD/type", func() interface{} { return streams.NewJSONLDTypeProperty() }, false, true, false, false},
+		job{"JSONLD/type", func() interface{} { return streams.NewJSONLDTypeProperty() }, false, false, false, true},
+		job{"JSONLD/id", func() interface{} { return streams.NewJSONLDIdProperty() }, true, false, false, false},
+		job{"JSONLD/id", func() interface{} { return streams.NewJSONLDIdProperty() }, true, false, false, true})
 	outs := make([]*c18out, len(jobs))
 	var mu sync.Mutex
 	par(len(jobs), func(i int) {
@@ -803,7 +805,11 @@ func C18(tier string) int {
 					out.viols = append(out.viols, report.Violation{Key: "panic|" + fmt.Sprint(r), What: fmt.Sprintf("%s: container operation panicked: %v", j.key, r), Replay: M{"check": "C18", "property": j.key}})
 				}
 			}()
-			if j.fn && j.all {
+			if j.extra && j.fn {
+				out = exploreFuncStarts(o, j.key, j.newP, stride)
+			} else if j.extra {
+				out = exploreElemSetters(o, j.key, j.newP, stride)
+			} else if j.fn && j.all {
 				out = exploreFuncAllKinds(j.key, j.newP, stride)
 			} else if j.all {
 				out = exploreSeqAllKinds(j.key, j.newP, stride)
@@ -820,7 +826,9 @@ func C18(tier string) int {
 		mu.Unlock()
 	})
 	nseq, nfunc := 0, 0
+	byCat := map[string]int{}
 	for i, out := range outs {
+		byCat[fmt.Sprintf("fn=%v mixed=%v all=%v extra=%v", jobs[i].fn, jobs[i].mixed, jobs[i].all, jobs[i].extra)] += out.nodes
 		res.States += out.nodes // every operation sequence is its own state (hidden index fields forbid merging)
 		res.Transitions += out.transitions
 		res.Traces += out.nodes
@@ -828,14 +836,14 @@ func C18(tier string) int {
 		for s := range out.states {
 			_ = s
 		}
-		res.Nontrivial[fmt.Sprintf("%s|%v|%v|%v", out.prop, jobs[i].fn, jobs[i].mixed, jobs[i].all)] = struct{}{}
+		res.Nontrivial[fmt.Sprintf("%s|%v|%v|%v|%v", out.prop, jobs[i].fn, jobs[i].mixed, jobs[i].all, jobs[i].extra)] = struct{}{}
 		for _, v := range out.viols {
 			res.Violate(v.Key, v.What, v.Replay)
 		}
 		if out.sample != nil {
 			res.Sample(out.sample)
 		}
-		if jobs[i].all {
+		if jobs[i].all || jobs[i].extra {
 			continue
 		}
 		if jobs[i].fn {
@@ -849,10 +857,11 @@ func C18(tier string) int {
 		distinctRef += len(out.states)
 	}
 	res.Extra["distinct_reference_states"] = distinctRef
+	res.Extra["sequences_by_exploration"] = byCat
 	res.Extra["non_functional_properties"] = nseq
 	res.Extra["functional_properties"] = nfunc
 	res.Extra["depth_completed"] = M{"iri_alphabet": depthIRI, "mixed_alphabet": depthMixed, "functional": depthFunc}
-	res.Rule = fmt.Sprintf("every non-functional property (%d): ALL operation sequences from the empty container up to depth %d over {Append,Prepend,Insert(i),Set(i),Remove(i),Swap(i,j)} with every valid index and 2 IRI values, and to depth %d with a mixed alphabet {IRI, first literal kind, first type kind}; after every step Len/Empty/At(i) kind+value/forward walk/backward walk/Serialize are compared with a plain Go slice driven by the same operations; every functional property (%d): all Set*/SetIRI/Clear sequences up to length %d over IRI + up to 3 kinds; additionally EVERY kind of every property in short sequences (non-functional: a one-element container of kind k1 followed by Append/Prepend/Insert(0|1)/Set(0) of kind k2, Remove after Prepend; functional: Set k1 then Set k2 / Clear), each also through the generic AppendType/PrependType/InsertType/SetType entry points, for all pairs (k1,k2) (quick: a third of the pairs, always including k1=k2 and the first and last kind); states = distinct (property, reference state) pairs, transitions = operations applied; every state is rebuilt by replaying its operation list on a fresh real object", nseq, depthIRI, depthMixed, nfunc, depthFunc)
+	res.Rule = fmt.Sprintf("every non-functional property (%d): ALL operation sequences from the empty container up to depth %d over {Append,Prepend,Insert(i),Set(i),Remove(i),Swap(i,j)} with every valid index and 2 IRI values, and to depth %d with a mixed alphabet {IRI, first literal kind, first type kind}; after every step Len/Empty/At(i) kind+value/forward walk/backward walk/Serialize are compared with a plain Go slice driven by the same operations; every functional property (%d): all Set*/SetIRI/Clear sequences up to length %d over IRI + up to 3 kinds; additionally EVERY kind of every property in short sequences (non-functional: a one-element container of kind k1 followed by Append/Prepend/Insert(0|1)/Set(0) of kind k2, Remove after Prepend; functional: Set k1 then Set k2 / Clear), each also through the generic AppendType/PrependType/InsertType/SetType entry points, for all pairs (k1,k2) (quick: a third of the pairs, always including k1=k2 and the first and last kind); further, the setters not named after a kind and start states other than a fresh container: every functional property from {fresh, decoded from the serialised form of each kind, decoded from each of 6 junk values the slot keeps as an opaque unknown} through every sequence of length 1..2 over {every Set<Kind>, SetIRI, SetLanguage, Clear}; every non-functional property as a list of 2-3 elements (built by Append, or decoded from a JSON array, also with a junk element kept as unknown in each position) with every in-place setter of every element reached through At(i) (Set<Kind> of every kind, SetIRI, SetType, SetLanguage), alone or followed by Remove / Swap / a second in-place set; states = distinct (property, reference state) pairs, transitions = operations applied; every state is rebuilt by replaying its operation list on a fresh real object", nseq, depthIRI, depthMixed, nfunc, depthFunc)
 	res.Assumptions = []string{"an element's expected observation is the one a fresh single-element container shows for the same (kind, value): the check judges the container logic, not per-kind serialisation (C01/C12)"}
 	return res.Finish()
 }
